@@ -1,0 +1,17 @@
+//go:build verif
+
+// Contracts for the interfaces of package model (properties C08, C09), checked by /verif/govc. Comments only.
+
+package model
+
+// A protocol's ResponseUnpack either fails or yields a packet (trusted: holds for TarsProtocol, which
+// returns the address of a local packet in every case).
+//
+//@ func (Protocol).ResponseUnpack
+//@   trusted
+//@   allocates
+//@   ensures err == nil ==> result0 != nil
+//
+//@ func (Protocol).RequestPack
+//@   trusted
+//@   allocates
